@@ -33,7 +33,8 @@ RULE = ("case = (energy kind [20: Gaussian unit/diagonal/scaled/sandwich covaria
         "variable-covariance Gaussian real/complex x full/approximate Fisher, _SpecialGammaEnergy real/complex], "
         "wrapper [plain, scaled, sum of two data sets, sum with a Gaussian, sum over a MultiDomain, linear / exp / "
         "exp-linear / tanh-link / softmax forward model, StandardHamiltonian with and without sampling controller, "
-        "Hamiltonian of model], pixels, point of a 4-value grid per coordinate (full product up to 64|256 points, "
+        "Hamiltonian of model, every association shape of sums of 3 and 4 terms incl. scaled inner sums on single and "
+        "multi domains and inside a Hamiltonian], pixels, point of a 4-value grid per coordinate (full product up to 64|256 points, "
         "else 4 rotations + all single-coordinate deviations)); every case enumerates ALL data outcomes / exact "
         "quadrature nodes and runs the real energy on each; distinct = different (kind, wrapper, npix, point); "
         "non-trivial = more than one data outcome and the wrapper produced the operator class it is about")
@@ -90,6 +91,44 @@ WRAPS_FOR = {
     "vcg": ["plain", "scaled", "sum_multi", "link", "ham", "ham_ic", "ham_link", "multi_link"],
 }
 NLIN = 2      # number of latent coordinates of the linear models
+
+# Association shapes of sums of 3 and 4 likelihood terms (all 2 + 5 binary trees) and scaled inner sums.
+# A tree is an int (leaf = term index), a pair (left, right) = left + right, or ("s", tree) = tree.scale(c).
+NESTS = {
+    "n3l": ((0, 1), 2), "n3r": (0, (1, 2)),
+    "n4ll": (((0, 1), 2), 3), "n4lm": ((0, (1, 2)), 3), "n4bal": ((0, 1), (2, 3)), "n4rm": (0, ((1, 2), 3)),
+    "n4rr": (0, (1, (2, 3))),
+    "n3rs": (0, ("s", (1, 2))), "n4bals": ((0, 1), ("s", (2, 3))), "n4sbal": (("s", (0, 1)), (2, 3)),
+    "n4rms": (0, (("s", (1, 2)), 3)),
+}
+NEST_WRAPS = []
+for _n in NESTS:
+    for _d in ("S", "M"):          # S: all terms on the same domain, M: MultiDomain (odd terms on their own key)
+        WRAPS["%s_%s" % (_n, _d)] = ("id", "nest%s:%s" % (_d, _n), False, None)
+        NEST_WRAPS.append("%s_%s" % (_n, _d))
+for _n in ("n3r", "n4bal", "n4rms"):
+    for _d in ("S", "M"):
+        WRAPS["%s_%s_ham" % (_n, _d)] = ("id", "nest%s:%s" % (_d, _n), False, "ic")
+        NEST_WRAPS.append("%s_%s_ham" % (_n, _d))
+NEST_KINDS_QUICK = ["gauss_diag", "poisson", "bernoulli", "studentt", "invgamma", "categorical_ax0", "gauss_cdiag",
+                    "vcg_real_full"]
+
+
+def tree_leaves(t):
+    if isinstance(t, int):
+        return [t]
+    if t[0] == "s":
+        return tree_leaves(t[1])
+    return tree_leaves(t[0]) + tree_leaves(t[1])
+
+
+def nest_term_kinds(kind, combine):
+    """Kinds of the terms of a nested sum: even terms = the kind, odd terms = a diagonal Gaussian (own key 'b'
+    for MultiDomain nests; same domain for real / positive / unit-interval parameters, else the kind again)."""
+    multi = combine.startswith("nestM")
+    n = len(tree_leaves(NESTS[combine.split(":")[1]]))
+    other = "gauss_diag" if (multi or KINDS[kind] in ("real", "pos", "unit")) else kind
+    return [kind if i % 2 == 0 else other for i in range(n)]
 
 
 def ncat_for(npix, tier):
@@ -154,7 +193,7 @@ def blocks_for(kind, wrap, npix, tier):
             bl = [["", npix, False, "atanh"]]
         else:
             raise ValueError(model)
-    if combine == "multi":
+    if combine == "multi" or combine.startswith("nestM"):
         for b in bl:
             if b[0] == "":
                 b[0] = "a"
@@ -194,6 +233,11 @@ def n_outcomes(kind, wrap, npix, tier):
            "categorical": ncat_for(npix, tier), "sgamma": 3 ** cplx, "vcg": 3 ** cplx}[fam]
     n = per ** npix
     combine = WRAPS[wrap][1]
+    if combine.startswith("nest"):
+        tot = 1
+        for k in nest_term_kinds(kind, combine):
+            tot *= n if k == kind else (2 if combine.startswith("nestM") else 2 ** npix)
+        return tot
     return n * {"single": 1, "same": n, "gauss": 2 ** npix, "multi": 2}[combine]
 
 
@@ -206,8 +250,12 @@ def cases(tier, seed):
     full_limit = 64 if tier == "quick" else 256
     for npix in npixs:
         for kind, ptype in KINDS.items():
-            for wrap in WRAPS_FOR[ptype]:
+            for wrap in WRAPS_FOR[ptype] + NEST_WRAPS:
                 if tier == "quick" and wrap in ("all", "multi_link") and npix > 1:
+                    continue
+                nest = wrap in NEST_WRAPS
+                if nest and (npix > 1 or (tier == "quick" and kind not in NEST_KINDS_QUICK) or
+                             n_outcomes(kind, wrap, npix, tier) > (100 if tier == "quick" else 700)):
                     continue
                 if npix == 3 and (ptype in ("vcg", "creal") or kind == "sgamma_cplx"):
                     continue
@@ -215,7 +263,7 @@ def cases(tier, seed):
                     continue            # joint data space too large to run the energy on every outcome
                 bl = blocks_for(kind, wrap, npix, tier)
                 D = len(grid_axes(bl))
-                for pt in grid_points(D, full_limit if npix < 3 else 64):
+                for pt in grid_points(D, 4 if nest else (full_limit if npix < 3 else 64)):
                     out.append(dict(kind=kind, wrap=wrap, npix=npix, pt=pt, seed=seed, tier=tier))
     worder = list(WRAPS)
     korder = list(KINDS)
@@ -370,6 +418,7 @@ class Seg:
 class Term:
     def __init__(self, fam, segs, kind, aux, dom_key):
         self.fam, self.segs, self.kind, self.aux, self.dom_key = fam, segs, kind, aux, dom_key
+        self.scale = 1.          # factor of a scaled inner sum this term belongs to
         # segs: list of (block index, Seg)
 
     def theta(self, xb):
@@ -431,6 +480,33 @@ def build_spec(kind, wrap, npix, seed, tier):
     else:
         segs = [(0, Seg(model))]
     sp.terms = [Term(fam, segs, kind, aux, None)]
+    sp.tree = None
+    if combine.startswith("nest"):
+        multi = combine.startswith("nestM")
+        sp.tree = NESTS[combine.split(":")[1]]
+        sp.terms = []
+        for i, k in enumerate(nest_term_kinds(kind, combine)):
+            if k == kind:
+                ai = aux if i == 0 else aux_for(kind, npix, seed, "nest%d" % i)
+                sp.terms.append(Term(family_for(kind, npix, ai, tier), segs, kind, ai, None))
+            else:
+                n2 = 1 if multi else npix
+                ai = aux_for("gauss_diag", n2, seed, "nest%d" % i)
+                sp.terms.append(Term(family_for("gauss_diag", n2, ai, tier),
+                                     [(len(sp.blocks) - 1 if multi else 0, Seg("id"))], "gauss_diag", ai,
+                                     "b" if multi else None))
+        # scale factors of scaled inner sums -> per-term factor of the reference
+
+        def walk(t, f):
+            if isinstance(t, int):
+                sp.terms[t].scale = f
+            elif t[0] == "s":
+                walk(t[1], f * sp.inner_scale)
+            else:
+                walk(t[0], f)
+                walk(t[1], f)
+        sp.inner_scale = float(r.uniform(1.5, 3.))
+        walk(sp.tree, 1.)
     if combine == "same":
         sp.terms.append(Term(fam, segs, kind, aux, None))
     elif combine == "gauss":
@@ -590,7 +666,29 @@ def lib_build(ift, sp, datas):
     """Likelihood (and Hamiltonian) of the case for one joint data outcome."""
     e1 = lib_energy(ift, sp.terms[0], sp.npix, datas[0])
     expected = []
-    if sp.combine == "same":
+    if sp.tree is not None:
+        multi = sp.combine.startswith("nestM")
+        leaves = []
+        for i, (t, d) in enumerate(zip(sp.terms, datas)):
+            if t.dom_key == "b":
+                e = lib_energy(ift, t, 1, d).ducktape("b")
+            else:
+                e = e1 if i == 0 else lib_energy(ift, t, sp.npix, d, dom=None if t.kind == sp.kind else e1.domain)
+                if multi and not isinstance(e.domain, ift.MultiDomain):
+                    e = e.ducktape("a")
+            if multi:
+                e.name = "t%d" % i
+            leaves.append(e)
+
+        def build(t):
+            if isinstance(t, int):
+                return leaves[t]
+            if t[0] == "s":
+                return build(t[1]).scale(sp.inner_scale)
+            return build(t[0]) + build(t[1])
+        lh = build(sp.tree)
+        expected.append("_LikelihoodSum")
+    elif sp.combine == "same":
         lh = e1 + lib_energy(ift, sp.terms[1], sp.npix, datas[1])
         expected.append("_LikelihoodSum")
     elif sp.combine == "gauss":
@@ -723,7 +821,7 @@ def check_point(sp, xi, xi0):
         T = t.fam.tangent(th)
         refdev = max(refdev, rel(F.proj(Fs, T), F.proj(Fc, T)), abs(float(W.sum()) - 1.))
         J = t.jac(xb, sp.offs, sp.D)
-        Fxi += J.T @ Fs @ J
+        Fxi += t.scale * (J.T @ Fs @ J)
         per.append((Dm, W, g, J, t.fam.logpdf(th, Dm), t.fam.logpdf(t.theta(xb0), Dm)))
     if refdev > 1e-11:
         return [("harness", "reference", "enumerated Fisher != closed form (%.2e)" % refdev)], {}
@@ -759,8 +857,8 @@ def check_point(sp, xi, xi0):
         dv = 0.
         gref = np.zeros(sp.D)
         for k, (t, i) in enumerate(zip(sp.terms, idx)):
-            dv += float(-per[k][4][i] + per[k][5][i])
-            gref += per[k][3].T @ per[k][2][i]
+            dv += t.scale * float(-per[k][4][i] + per[k][5][i])
+            gref += t.scale * (per[k][3].T @ per[k][2][i])
         dv *= sp.scale
         gref = sp.scale * gref
         if sp.ham:
